@@ -163,6 +163,8 @@ def check(run):
                 continue
             cwa = pairs.get(cal.get("cls"), (None,))[0] or emission.analyse_writer(cands[0], facts)
             ok = cwa.top is not None and cwa.top_guard == ("T",)
+            if not ok and cwa.top is None and cwa.unrecognised:
+                ok = None       # the callee hands part of its output to something the emission grammar does not know: no claim
             run.ob("R09.3", "%s->%s" % (short(w["qn"]), short(cal["qn"])), ok, w, ev.line,
                    "nested structure is always written as exactly one item (also when no member is set)" if ok else
                    "%s emits nothing when %s: a present-but-empty value is written as a key without value and reads back absent/corrupt" % (
